@@ -1,5 +1,7 @@
 import PegVerif.Proofs.LeftRec
 import PegVerif.Proofs.LeftRecShape
+import PegVerif.Proofs.RefineLR
+import PegVerif.Proofs.NonVacuity
 /-
   C07 – `@leftrec` rules terminate and build the left-nested tree of the longest growth.
   Model: `memoBody` (left_recursive branch) / `growLoop` in Eval.lean – the seed-and-grow loop of
@@ -101,5 +103,100 @@ example :
     (match parseAdvanced LeftRecExample.envE 60 "E" [32, 49, 43, 50, 43, 51] 0 with
      | some (.ok _ s, _) => s.off == 2
      | _ => false) = true := by decide
+
+/-! ### the result *is* "the one obtained by growing a match" (SpecLR.lean, Proofs/RefineLR.lean)
+
+  `SpecLR.eval` spells the sentence of the property out as a semantics: a `@leftrec` rule at offset `p` is
+  answered by growing – seed := failure; evaluate the body with references to the rule at `p` standing for the
+  seed; keep the result while it is a success strictly further than the seed; stop otherwise – with no cache and
+  nothing remembered afterwards.  For every grammar of the class the property quantifies over (`LROk`: left
+  recursion through `@leftrec` rules only, direct or indirect through non-memoized rules, no other memoized or
+  left-recursive rule reachable inside the cycle before input is consumed) the generated parser computes exactly
+  that – although it keeps finished results of `@leftrec` and `@memoize` rules in its cache for the rest of the
+  parse. -/
+theorem C07_result_is_the_growth (env : Env) (hp : PureHooks env.hooks) (hok : LROk env.g env.settings)
+    {n : Nat} {rule : String} {inp : List UInt8} {u : Nat} {r g}
+    (h : parseAdvanced env n rule inp u = some (r, g)) :
+    ∃ m, SpecLR.parse env u m rule inp = some (Spec.abs r) :=
+  eval_refLR env hp hok h
+
+/-- the side condition is needed: with a second `@leftrec` rule inside the cycle the class check fails – and the
+    model really answers differently from the growth semantics there (`LRExample.mutEnv` in RefineLR.lean) -/
+example : ¬ LROk LRExample.mutEnv.g LRExample.mutEnv.settings := by decide
+
+/-! ## non-vacuity (BEGIN) -/
+namespace C07_nv
+open Peg.NV Peg.LeftRecExample
+
+/-! instance: `LeftRecExample.envE` = `@export @leftrec E = l:*E '+' r:Num | b:Num; @string Num = {'0'..'9'}+;`
+    on `"1+2+3"` (two growth steps); `parseAdvanced envE 12 "E"` is `normalRule envE (eval envE 11) 11 ruleE …` -/
+
+def body : St → Global → Out Val := ruleBody envE (eval envE 11) ruleE
+
+/-- `C07_terminates`: the premise holds with loop fuel 11, the conclusion bounds the needed loop fuel by 5 + 2 -/
+theorem top_some : (normalRule envE (eval envE 11) 11 ruleE (St.new inp) (Global.init 0)).isSome = true := by decide
+example : ∃ k0, k0 ≤ inp.length + 2 ∧ ∀ k', k0 ≤ k' →
+    normalRule envE (eval envE 11) k' ruleE (St.new inp) (Global.init 0) =
+      some ((normalRule envE (eval envE 11) 11 ruleE (St.new inp) (Global.init 0)).get top_some) :=
+  C07_terminates envE 11 ruleE rfl inp 0 (Option.some_get top_some).symm
+/-- the loop really iterated: four body evaluations (seed, two growth steps, the failing last one) -/
+example : (match normalRule envE (eval envE 11) 11 ruleE (St.new inp) (Global.init 0) with
+    | some (.ok _ s, g) => s.off == 5 && bodyEvals g.log "E" 0 == 4
+    | _ => false) = true := by decide
+
+/-- `C07_longest_growth`: the grow loop entered with the failing seed -/
+def e0 : PErr := s0.reportError .leftRecursionSentinel
+def gSeed : Global := (Global.init 0).insert ("E", 0) (.err e0)
+example : ∃ v ns g', growLoop body ("E", 0) s0 11 (.err e0) gSeed = some (.ok v ns, g') ∧ ns.off = 5 ∧
+    ∃ chain : List (Val × St), chain.getLast? = some (v, ns) ∧ (∀ x ∈ chain, x.2.off ≤ ns.off) ∧
+      (∃ g0 g1, body s0 g0 = some (.ok v ns, g1)) := by
+  obtain ⟨v, ns, g', h, hp⟩ := ok_of (o := growLoop body ("E", 0) s0 11 (.err e0) gSeed) (fun _ s _ => s.off == 5) (by decide)
+  exact ⟨v, ns, g', h, by simpa using hp, C07_longest_growth h⟩
+
+/-- `C07_direct`: its semantic hypothesis is `LeftRecExample.direct` (the real body, m = 2); the cache miss holds for
+    the fresh global -/
+example : ∃ g', (∀ n, 2 + 2 ≤ n → memoBody ruleE.flags "E" body n s0 (Global.init 0) =
+      some (.ok (nestL extE b0E 2) (stE 2), g')) ∧
+    (∀ n, n ≤ 2 + 1 → memoBody ruleE.flags "E" body n s0 (Global.init 0) = none) :=
+  C07_direct (flags := ruleE.flags) (name := "E") rfl direct rfl
+example : (nestL extE b0E 2).render =
+    "E { l: Some(E { l: Some(E { l: None, r: None, b: Some(S\"31\") }), r: Some(S\"32\"), b: None }), r: Some(S\"33\"), b: None }" ∧
+    (stE 2).off = 5 := by decide
+
+/-- `C07_seed_replaced` on a success (`"1+2+3"`) and on a failure (`"+"`): the cache ends with the answer, not the seed -/
+example : ∃ v s g', memoBody ruleE.flags ruleE.name body 11 s0 (Global.init 0) = some (.ok v s, g') ∧
+    g'.lookup ("E", 0) = some (.ok v s) := by
+  obtain ⟨v, s, g', h, -⟩ := ok_of (o := memoBody ruleE.flags ruleE.name body 11 s0 (Global.init 0)) (fun _ s _ => s.off == 5)
+    (by decide)
+  exact ⟨v, s, g', h, C07_seed_replaced envE 11 ruleE rfl (s := s0) rfl h (fun m hm => by cases hm)⟩
+example : ∃ e g', memoBody ruleE.flags ruleE.name body 11 (St.new [43]) (Global.init 0) = some (.err e, g') ∧
+    e.spec ≠ .leftRecursionSentinel ∧ g'.lookup ("E", 0) = some (.err e) := by
+  obtain ⟨e, g', h, hp⟩ := err_of (o := memoBody ruleE.flags ruleE.name body 11 (St.new [43]) (Global.init 0))
+    (fun e _ => e.spec != .leftRecursionSentinel) (by decide)
+  exact ⟨e, g', h, by simpa using hp, C07_seed_replaced envE 11 ruleE rfl (s := St.new [43]) rfl h (fun m hm => by cases hm)⟩
+
+/-! `C07_usual_shape` / `C07_extension_holds_previous`: the syntactic and semantic hypotheses are
+    `LRS.ShapeExample.shapeE`, `noLeadWsE`, `greedyE`, `recFieldOnlyE` (the `E` grammar on `"1+2+3"`) and
+    `LRS.ShapeExample2.shapeA`, `noLeadWsA`, `greedyA` (a `@position` rule, a grammar-defined `Whitespace`, input
+    `"y x x"` with whitespace between the tokens) -/
+open LRS in
+example : ∃ (se : St) (N : Nat), Spec.clr se = ShapeExample.posE 2 ∧ ∀ n, N ≤ n → ∃ g',
+    parseAdvanced envE n "E" inp 0 =
+      some (.ok (leftTree ruleE "E" (St.new inp) ShapeExample.posE ShapeExample.fs0E ShapeExample.fsxE 2) se, g') :=
+  C07_usual_shape ShapeExample.shapeE inp 0 ShapeExample.noLeadWsE ShapeExample.greedyE
+open LRS in
+example (v : Val) : (ShapeExample.fsxE 1 v).get "l" = some (recVal ShapeExample.flE "E" v) :=
+  C07_extension_holds_previous ShapeExample.greedyE ShapeExample.recFieldOnlyE 1 (by decide) v
+open LRS ShapeExample2 in
+example : ∃ (se : St) (N : Nat), Spec.clr se = posA 2 ∧ ∀ n, N ≤ n → ∃ g',
+    parseAdvanced envA n "A" inpA 0 = some (.ok (leftTree ruleA "A" (St.new inpA) posA fs0A fsxA 2) se, g') :=
+  C07_usual_shape shapeA inpA 0 noLeadWsA greedyA
+open LRS ShapeExample2 in
+example : (leftTree ruleA "A" (St.new inpA) posA fs0A fsxA 2).render =
+    "A { l: Some(A { l: Some(A { l: None, x: None, y: Some(Y), position: 0..1 }), x: Some(X), y: None, position: 0..3 }), x: Some(X), y: None, position: 0..5 }" := by
+  decide +kernel
+
+end C07_nv
+/-! ## non-vacuity (END) -/
 
 end Peg.Props
